@@ -108,6 +108,13 @@ func staticKey(v ssa.Value) string {
 }
 
 func argKeys(t types.Type) []string {
+	if pt, ok := t.Underlying().(*types.Pointer); ok {
+		for _, im := range immutableLibTypes {
+			if typeKey(pt.Elem()) == im {
+				return nil
+			}
+		}
+	}
 	switch u := t.Underlying().(type) {
 	case *types.Slice:
 		return []string{elemKey(u.Elem())}
@@ -156,13 +163,13 @@ func (p *Prog) computeWriteSets() {
 				case *ssa.MapUpdate:
 					w.add(mapKey(x.Map.Type().Underlying().(*types.Map)))
 				case *ssa.Send:
-					w.add("ghost:sent<" + types.TypeString(x.Chan.Type(), qualShort) + ">")
-					w.add("ghost:last<" + types.TypeString(x.Chan.Type(), qualShort) + ">")
+					w.add("ghost:sent<" + chanKey(x.Chan.Type()) + ">")
+					w.add("ghost:last<" + chanKey(x.Chan.Type()) + ">")
 				case *ssa.Select:
 					for _, s := range x.States {
 						if s.Dir == types.SendOnly {
-							w.add("ghost:sent<" + types.TypeString(s.Chan.Type(), qualShort) + ">")
-							w.add("ghost:last<" + types.TypeString(s.Chan.Type(), qualShort) + ">")
+							w.add("ghost:sent<" + chanKey(s.Chan.Type()) + ">")
+							w.add("ghost:last<" + chanKey(s.Chan.Type()) + ">")
 						}
 					}
 				case *ssa.MakeClosure:
